@@ -3,6 +3,22 @@
 import json, os
 
 CLAIMED = {
+    "C01": ("Coq proof (invariant by induction over all operation sequences, for every populate_space) + differential correspondence of the lifecycle core with the four real oracles",
+            "C01_lifecycle proves the invariant Inv (unique ids in start order; ongoing injective and RUNNING; exact three-way partition ongoing / retry queue / end_order; "
+            "COMPLETED/FAILED iff ended; COMPLETED has a non-NaN score; trial files agree) in every reachable state for every history of create/update/end/reload, every "
+            "number of tuners and EVERY populate_space (the proof never unfolds the algorithm); C01_same_trial and C01_never_reissue_final cover the responses. The core is tied to "
+            "the code on every run: each generated history is executed on the real random/grid/Hyperband/Bayesian oracles and the model reproduces the complete bookkeeping after every call.",
+            "Trusted: Coq kernel/vm_compute; python harness; populate_space enters as a recorded table; sha256 token identifies a values dict; inadmissible calls (ending a trial "
+            "not handed out) are outside the property.", "DESIGN.md section 6 C01"),
+    "C02": ("Coq proof (budget invariant over all histories incl. save/reload, every populate_space) + differential correspondence",
+            "C02_budget: length trials <= N in every reachable state; C02_retry_reuses_trial: a retry re-issues an existing trial; C02_stopped: at the budget with no retry pending the answer is STOPPED "
+            "and nothing changes. Tie: same lifecycle correspondence on random/grid/Bayesian oracles with N in 1..6, remaining_trials() compared after every call.",
+            "Trusted: as C01.", "DESIGN.md section 6 C02"),
+    "C03": ("Coq proof (end_trial outcome theorem, absorbing final states over all runs, abort iff streak) + differential correspondence",
+            "C03_end_outcome (INVALID re-queued while runs <= max_retries, FAILED afterwards, COMPLETED carries the score of the payload sent), C03_retry_first, C03_reissue_same_values (same values, fresh metrics), "
+            "C03_final_absorbing (status and score of COMPLETED/FAILED trials never change again, under every operation), C03_abort_iff + C03_streak_spec (abort raised exactly on K consecutive FAILED in finishing order). "
+            "Tie: lifecycle correspondence with a retry-heavy outcome mix; the implementation trace is also checked directly against 'score of a normal retry = that run's score'.",
+            "Trusted: as C01; scores modelled over exact rationals (reports are multiples of 60 so per-step means are exact).", "DESIGN.md section 6 C03"),
     # id: (technique, level text, level note, design ref)
     "C18": ("Coq proof over Metrics.v (exact rationals + NaN/inf) + differential correspondence with metrics_tracking/tuner_utils",
             "Theorems C18_* (Props/C18.v) prove for all report sequences / results: per-step recording, nanmin/nanmax best value, first best "
